@@ -231,6 +231,11 @@ func c18(p *Prog, r *Report) {
 	const R6 = "C18.serialization-not-from-a-seeded-cache"
 	r.Rule(R6, "a key type's Marshal returns the encoding of its fields: an encoding cache, if it has one, is filled only by that Marshal (shared with C04)", 1)
 	encodingCaches(p, r, R6, func(typ string) bool { return strings.Contains(typ, "Key") })
+	// a name key received on the wire re-serializes to the bytes it was parsed
+	// from: the hash over EncapKey.Marshal() is then the hash of the serialized key
+	const R7 = "C18.name-key-reserializes"
+	r.Rule(R7, "EncapKey decoder and encoder agree field by field (id, KEM, public key, KDF, AEAD): a parsed name key serializes to the bytes received, so its id is SHA-256 of the serialized key (shared with C04)", 3)
+	c04EncapKey(p, r, R7)
 
 }
 
